@@ -11,13 +11,16 @@ RULE = ("seeded runs; a run = product x back-end x records_per_chunk x a list of
         "faults applied one at a time to a pristine copy: missing(summary|VOL|LED|IMG_k|TRL) and "
         "trunc(VOL|LED|IMG_k, k) with k in {0,1,719,720,721,size-1, first pixel byte of the last "
         "record} + every record boundary b and b-1,b+1 (all of them for images of <= 12 lines, "
-        "sampled above) + random interior points; thorough adds runs that cut one small image at "
+        "sampled above) + random interior points, and eio(file, n) = the n-th read request on that "
+        "file fails once with EIO (recorded back-ends); thorough adds runs that cut one small image at "
         "EVERY byte; each fault is one evaluation; distinct key = (file kind, cut class, relation "
         "of r to N, outcome class, level)")
 EXHAUSTIVE = {"quick": False, "thorough": False}
 ASSUMPTIONS = [
     "no cache is present and use_cache is left at its default",
     "a truncated summary is not injected (the property does not list it)",
+    "an injected read error (EIO) is held to the same rule as a truncation: raise, or return the "
+    "right tree - never a tree with an image that is short or does not load",
     "a call that returns must return a tree identical to the undamaged reference whose every image "
     "loads with the declared shape and the truth values (a cut in a region the reader never uses "
     "is legitimately invisible); any Exception is accepted for truncation, an OSError for a "
@@ -85,6 +88,13 @@ def generate(rng, tier, index):
     for k in sorted({rng.choice([0, 1, 359, 360, 361, vsize - 360, vsize - 1]),
                      rng.randrange(vsize)}):
         faults.append({"kind": "trunc", "file": prod.vol, "at": k})
+    if wp["backend"] in world.RECORDED:
+        # an I/O error on the n-th read request of one file (the storage answers EIO once)
+        n_req = 2 + -(-n // max(min(r, n), 1))
+        for f in ("summary.txt", prod.vol, prod.led, img, img):
+            if rng.random() < 0.6:
+                faults.append({"kind": "eio", "file": f,
+                               "nth": rng.randrange(n_req) if f == img else 0})
     return {"world": wp, "rpc": r, "faults": faults}
 
 
@@ -143,10 +153,14 @@ def execute(plan):
             if fault["kind"] == "missing":
                 w.remove_file(f)
                 cc = "missing"
+            elif fault["kind"] == "eio":
+                SIM.read_fault = {"file": f, "nth": fault["nth"]}
+                cc = "eio" if fault["nth"] < 2 else "eio-late"
             else:
                 w.write_file(f, original[:fault["at"]])
                 cc = cut_class(prod, f, fault["at"])
-            SIM.fault(fault["kind"])
+            if fault["kind"] != "eio":      # eio is counted when it actually fires
+                SIM.fault(fault["kind"])
             site = f"{kind}:{cc}"
             start = SIM.mark()
             SIM.max_events = start + EVENT_BUDGET
@@ -161,6 +175,10 @@ def execute(plan):
                 violations.append(Violation(ID, "base-exception", site, {
                     "fault": fault, "error": exc_text(e), "rpc": r}))
                 err = e
+            finally:
+                if fault["kind"] == "eio":
+                    bump("eio-fired" if SIM.read_fault.get("fired") else "eio-not-reached")
+                SIM.read_fault = None
             if err == "budget":
                 violations.append(Violation(ID, "no-prompt-termination", site, {
                     "fault": fault, "events": EVENT_BUDGET, "rpc": r}))
